@@ -4,6 +4,7 @@ import (
 	"crypto/sha256"
 	"encoding/hex"
 	"fmt"
+	"time"
 
 	"errsim/tape"
 )
@@ -37,6 +38,13 @@ type Sched struct {
 	// OnStep is called (on the scheduler goroutine, no task running) after
 	// every switch and completion.
 	OnStep func(last *Task, site int)
+
+	// Stuck is set when the running task neither yielded nor finished within
+	// Watchdog: it is blocked on a real synchronisation primitive held by a
+	// parked task (the unchanged library has none on its read paths). The
+	// run is then inconclusive for the cooperative layer, never a violation.
+	Stuck    bool
+	Watchdog time.Duration
 
 	cur         *Task
 	events      chan event
@@ -99,8 +107,18 @@ func (s *Sched) Run() {
 		return
 	}
 	start(r[s.T.Draw(len(r))])
+	if s.Watchdog == 0 {
+		s.Watchdog = 3 * time.Second
+	}
 	for {
-		ev := <-s.events
+		var ev event
+		select {
+		case ev = <-s.events:
+		case <-time.After(s.Watchdog):
+			s.Stuck = true
+			s.cur = nil
+			return
+		}
 		s.cur = nil
 		if ev.done {
 			ev.task.done = true
